@@ -36,7 +36,10 @@ def unfr(s):
 
 
 GB_CLASSES = ["north_up", "mirror_x", "mirror_y", "mirror_xy", "nonsquare", "rot345", "rot345_mirror",
-              "rot51213", "shear", "row", "col", "single", "single_rot", "gcp"]
+              "rot51213", "shear", "row", "col", "single", "single_rot", "gcp",
+              # quarter turns (diagonal terms exactly 0) and rotated / sheared grids with pixels of 1e-6..1e-5 units:
+              # not axis-aligned by the off-diagonal test, but "rectilinear" for looser tests
+              "rot90", "rot270", "rot90_mirror", "fine_rot", "fine_shear"]
 
 
 def gen_res(rng):
@@ -77,16 +80,36 @@ def gen_geobox_spec(rng, cls=None, crs="any", small=False):
             ny = 1
         if rng.random() < 0.3:
             nx = 1
+    elif cls in ("rot90", "rot270", "rot90_mirror"):
+        r = gen_res(rng)
+        r2 = r * rng.choice([1, 1, 2, 3])
+        rx = ry = Fraction(0)
+        b, d = {"rot90": (-r, r2), "rot270": (r, -r2), "rot90_mirror": (r, r2)}[cls]
+        if rng.random() < 0.2:
+            ny = 1
+        if rng.random() < 0.2:
+            nx = 1
+    elif cls in ("fine_rot", "fine_shear"):
+        s = Fraction(2) ** rng.choice([-21, -20, -19])     # 4.8e-7 .. 1.9e-6: every coefficient below 1e-5
+        if cls == "fine_rot":
+            rx, b, d, ry = rng.choice([(3 * s, -4 * s, 4 * s, 3 * s), (3 * s, 4 * s, 4 * s, -3 * s), (4 * s, -3 * s, 3 * s, 4 * s)])
+        else:
+            rx, b, d, ry = 2 * s, s * rng.choice([1, -1, 3]), rng.choice([Fraction(0), s]), -2 * s
     if cls == "row":
         ny = 1
     elif cls == "col":
         nx = 1
     elif cls in ("single", "single_rot"):
         ny = nx = 1
-    if crs == "any":
+    crs_any = crs == "any"
+    if crs_any:
         crs = rng.choice([None, "epsg:3857", "epsg:4326", "epsg:32633", "epsg:3577", "epsg:4283", "epsg:3857"])
     spec = {"cls": cls, "shape": [ny, nx], "affine": [fr(rx), fr(b), fr(gen_off(rng)), fr(d), fr(ry), fr(gen_off(rng))],
             "crs": crs}
+    if cls in ("fine_rot", "fine_shear"):
+        spec["affine"][2], spec["affine"][5] = fr(Fraction(rng.randint(-2000, 2000), 16)), fr(Fraction(rng.randint(-1200, 1200), 16))
+        if crs_any and crs is not None and rng.random() < 0.7:
+            spec["crs"] = rng.choice(["epsg:4326", "epsg:4283"])
     if cls == "gcp":
         # the GeoBox's own pixel->mapping-frame transform: power-of-two scale + dyadic shift (exactly invertible)
         sc = Fraction(2) ** rng.choice([0, 0, 1, -1])
@@ -545,7 +568,7 @@ def gen_dst_spec(rng, dst_crs, centre):
     source: dyadic coefficients, pixel size ~16 km (1/8 degree), at most 4x4 pixels."""
     u = Fraction(1, 8) if dst_crs == "epsg:4326" else Fraction(16384)
     cls = rng.choice(["north_up", "mirror_y", "mirror_x", "rot345", "rot345_mirror", "row", "col", "single", "single_rot",
-                      "nonsquare", "shear"])
+                      "nonsquare", "shear", "rot90", "rot270"])
     ny, nx = rng.choice([2, 3, 4]), rng.choice([2, 3, 4])
     m1, m2 = rng.choice([1, 2, 3]), rng.choice([1, 2, 3])
     a, b, d, e = u * m1, Fraction(0), Fraction(0), -u * m2
@@ -561,6 +584,10 @@ def gen_dst_spec(rng, dst_crs, centre):
         a, b, d, e = 3 * u / 4, u, u, -3 * u / 4
     elif cls == "shear":
         a, b, d, e = u, u / 2, Fraction(0), -u
+    elif cls == "rot90":
+        a, b, d, e = Fraction(0), -u * m1, u * m2, Fraction(0)
+    elif cls == "rot270":
+        a, b, d, e = Fraction(0), u * m1, -u * m2, Fraction(0)
     if cls == "row":
         ny = 1
     elif cls == "col":
@@ -870,7 +897,7 @@ def search(out, tier):
         h = gen_history(rng, spec, opts)
         run("history", {"spec": spec, "opts": opts, "history": h})
     # exhaustive single slices on a small axis-aligned and a small rotated box, both axes
-    for cls, shape in (("mirror_y", [3, 4]), ("rot345", [4, 3]), ("gcp", [3, 3])):
+    for cls, shape in (("mirror_y", [3, 4]), ("rot345", [4, 3]), ("gcp", [3, 3]), ("rot90", [3, 3]), ("fine_rot", [3, 3])):
         spec = gen_geobox_spec(rng, cls, crs="epsg:3857")
         spec["shape"] = shape
         opts = {"ntime": None, "nband": None, "nodata": None, "name": "spatial_ref", "dask": False, "dtype": "int16", "user": {}}
@@ -884,7 +911,7 @@ def search(out, tier):
                     run("history", {"spec": spec, "opts": opts, "history": [{"op": "isel", "dim": dim, "slice": [a, b, st]}]})
     # strided / reversed slices leaving EXACTLY 1, 2 or 3 pixels on an axis (the boundary of the one-label
     # fallback of data_resolution_and_offset), alone, on both axes at once, and followed by other operations
-    for cls in ("north_up", "mirror_xy", "rot345", "gcp"):
+    for cls in ("north_up", "mirror_xy", "rot345", "gcp", "rot270", "fine_shear"):
         spec = gen_geobox_spec(rng, cls, crs="epsg:3857")
         spec["shape"] = [8, 9]
         opts = {"ntime": None, "nband": None, "nodata": None, "name": "spatial_ref", "dask": cls == "mirror_xy",
